@@ -220,6 +220,19 @@ Definition worker (order : list N) (k : N) (fail : list N) (s : state) : state :
 Definition worker_calls (order : list N) (k : N) (fail : list N) (s : state) : N :=
   snd (worker_loop k fail (filter (fun i => memb i (mq s)) order) (s, 0)).
 
+(* Transient storage errors.  [sfail] = ids whose tree storage Delete (objecttree storage.Delete: one write
+   transaction) fails while this run lasts.  DeleteTree is only called for an id that tryMarkDeleted found stored, and
+   it is: tree manager takes the sync tree from its cache or builds it (BuildSyncTreeOrGetRemote), syncTree.Delete ->
+   objectTree.Delete -> storage.Delete.  Both trees set their isDeleted flag only AFTER the storage was deleted, so a
+   failed Delete leaves the (cached) sync tree alive, the error reaches deleter.Delete as an ordinary error ("failed
+   to delete object", continue) and a later attempt goes to the storage again.  For the run this is a tree-manager
+   failure for exactly the ids of [sfail] that are stored: an id without storage takes the MarkTreeDeleted path, which
+   does not touch its storage; and during the run the storage of an id of [sfail] neither appears nor disappears
+   (only a successful delete of that id removes it), so evaluating "stored" at the start of the run is exact. *)
+Definition sfail_eff (sfail : list N) (s : state) : list N := filter (fun i => has_storage i s) sfail.
+Definition worker_s (order : list N) (k : N) (fail sfail : list N) (s : state) : state :=
+  worker order k (fail ++ sfail_eff sfail s) s.
+
 (* ------------------------------------------------------------------ start-up *)
 Definition ids_with_status (v : N) (s : state) : list N :=
   map e_id (filter (fun e => e_status e =? v) (ents s)).
@@ -270,6 +283,8 @@ Inductive op :=
 | OpSettings (ids : list N)
 | OpSettingsInit
 | OpWorker (order : list N) (k : N) (fail : list N)
+(* a worker run during which the tree storage Delete of the ids [sfail] fails with a transient storage error *)
+| OpWorkerS (order : list N) (k : N) (fail sfail : list N)
 | OpRestart.
 
 Definition do_settings (ids : list N) (s : state) : state :=
@@ -348,6 +363,7 @@ Definition step (fixed : bool) (s : state) (o : op) : state * out :=
       let ss := fold_left sunion (slog s) [] in
       (st_add ss (with_sset ss s), OOk)
   | OpWorker order k fail => (worker order k fail s, OWorker (nsort (mq s)))
+  | OpWorkerS order k fail sfail => (worker_s order k fail sfail s, OWorker (nsort (mq s)))
   | OpRestart => (restart s, OOk)
   end.
 
@@ -413,6 +429,14 @@ Definition is_restart (o : op) : bool := match o with OpRestart => true | _ => f
 Definition complete_worker (o : op) : bool :=
   match o with
   | OpWorker _ k [] => never <=? k
+  | OpWorkerS _ k [] [] => never <=? k
+  | _ => false
+  end.
+
+(* the tree storage Delete of [i] fails with a transient error during the operation *)
+Definition storage_fault (o : op) (i : N) : bool :=
+  match o with
+  | OpWorkerS _ _ _ sfail => memb i sfail
   | _ => false
   end.
 
@@ -432,6 +456,10 @@ Definition spec_id (o : op) (x : out) (i : N) (b a : obs) : bool :=
   && (if o_mem a then 2 <=? o_st a else true)
   (* an id that is queued (durably and in the deletion state) is fully deleted by a complete worker run *)
   && (if complete_worker o && (o_st b =? 2) && o_mem b then o_st a =? 3 else true)
+  (* a queued, stored id whose storage Delete fails during a worker run is NOT reported deleted: it stays queued and
+     known to the deletion state (so that a later run retries it) and nothing of it is lost or half-removed *)
+  && (if storage_fault o i && (o_st b =? 2) && o_mem b && negb (o_nchg b =? 0)
+      then (o_st a =? 2) && o_mem a && (o_nchg a =? o_nchg b) else true)
   (* create / put / fetch of an id that is tombstoned - before the operation, or by a deletion recorded at any stage
      of the operation before the creating transaction commits: "already deleted" (unless the tree is still stored
      locally and served from there), and nothing of it is stored by the operation *)
@@ -440,7 +468,8 @@ Definition spec_id (o : op) (x : out) (i : N) (b a : obs) : bool :=
           if (j =? i) && ((2 <=? o_st b) || recorded_before_commit o)
           then match x with
                | OErrDeleted => true
-               | OLocal => negb (o_nchg b =? 0)
+               (* served from the local store: only while the id is merely queued; a fully deleted id is gone *)
+               | OLocal => negb (o_nchg b =? 0) && negb (3 <=? o_st b)
                | _ => false
                end
                && (o_nchg a <=? o_nchg b)
@@ -471,7 +500,7 @@ Definition spec_children (o : op) (univ : list N) (links : list (N * N)) (b a : 
   | OpRestart =>
       forallb (fun cp => let c := obs_of univ a (fst cp) in let p := obs_of univ a (snd cp) in
                          if (3 <=? o_st p) && (1 <=? o_st c) then 2 <=? o_st c else true) links
-  | OpWorker _ _ _ =>
+  | OpWorker _ _ _ | OpWorkerS _ _ _ _ =>
       if complete_worker o then
         forallb (fun cp => let pb := obs_of univ b (snd cp) in
                            if (o_st pb =? 2) && o_mem pb && (1 <=? o_st (obs_of univ b (fst cp)))
